@@ -145,6 +145,15 @@ class _Parked:
 PARKED = _Parked()
 
 
+def yields_somewhere(action):
+    """does this action (or a conditional's sub-action) return a yield code?  Decided on the action's class, not by asking nmfu's own
+    may_return_early(): the pointer rule (only a yield leaves the pointer past the byte that carries it) is the machine model's, so a change
+    to that method must show up as a difference between the C and the machine"""
+    if isinstance(action, N.CustomYieldAction):
+        return True
+    return any(isinstance(x, N.CustomYieldAction) for x in action.all_subactions())
+
+
 class AM:
     def __init__(self, dctx, name="p"):
         self.d = dctx
@@ -170,7 +179,7 @@ class AM:
     # ---------------------------------------------------------------- data
     def capacity(self, o):
         if o.type == T.STR:
-            return o.effective_string_size()
+            return o.str_size - 1 if o.str_null else o.str_size      # from the declaration, not nmfu's effective_string_size()
         sz = RAW_SIZES.get(o.raw_underlying)
         if sz is None:
             raise Malformed("raw type of unknown size " + o.raw_underlying)
@@ -416,7 +425,7 @@ class AM:
                 cfg["state"] = t.target
             imm = self.immediate_done(t)
             consuming = not t.is_fallthrough
-            early = consuming and not imm and any(x.may_return_early() for x in t.actions)
+            early = consuming and not imm and any(yields_somewhere(x) for x in t.actions)
             mark = len(ev)
             try:
                 for a in t.actions:
